@@ -409,3 +409,34 @@ def thread_anomalies(case, out):
     for k, n in out.get('closes', {}).items():
         if n > 1: res.append(('connection-closed-twice-threads', 'connection %s closed %d times (%s)' % (k, n, name)))
     return res
+
+
+# ------------------------------------------------------------------------------------------------ PostgreSQL autocommit (C17)
+
+PG_HEADER = HEADER + 'Require Import PonyV.Model.C17Pg.\n'
+PG_CALLS = {'execute:select': 'PExecute PSel', 'execute:write': 'PExecute PWr', 'execute:set_serializable': 'PExecute PSetSerializable',
+            'execute:discard': 'PExecute PDiscard', 'close': 'PClose', 'commit': 'PCommit', 'rollback': 'PRollback',
+            'autocommit:True': 'PSetAutocommit true', 'autocommit:False': 'PSetAutocommit false'}
+PG_OPS = {'select': 'PoSelect', 'write': 'PoWrite', 'commit': 'PoCommit', 'rollback': 'PoRollback'}
+
+
+def pg_random_cases(rng, n):
+    cases = []
+    for _ in range(n):
+        ses = []
+        for _s in range(rng.randrange(1, 4)):
+            shape = rng.choice(['opt', 'opt', 'imm', 'ser', 'ddl'])
+            ops = [rng.choice(['select', 'write', 'write', 'commit', 'rollback']) for _o in range(rng.randrange(0, 6))]
+            ses.append([shape, ops, rng.random() < 0.3])
+        cases.append({'sessions': ses})
+    return cases
+
+
+def coq_pg_case(case, out):
+    evs = []
+    for what, ac, dtx in out['events']:
+        if what not in PG_CALLS: raise Unmodelled('postgres call %r' % what)
+        evs.append('PEv (%s) %s %s' % (PG_CALLS[what], cb(ac), cb(dtx)))
+    ses = '[' + '; '.join('(%s, [%s], %s)' % (SHAPES[sh], '; '.join(PG_OPS[o] for o in ops), cb(fail)) for sh, ops, fail in case['sessions']) + ']'
+    return ('(let s := pg_run %s (pg_init false) in list_eqb pevent_eqb (rev (g_trace s)) [%s] && eqb (g_bad s) %s && pg_writes_ok (g_trace s))'
+            % (ses, '; '.join(evs), cb(out['bad'])))
